@@ -8,60 +8,84 @@ Import ListNotations.
 Definition calls_of (d : doc) (fs : list callable) : list (nat * bool) :=
   map (fun f => (fn_id f, raises_on f d)) fs.
 
-Lemma call_all_ignore : forall d fs, call_all true d fs = (calls_of d fs, None).
-Proof.
-  intros d; induction fs as [|f fs IH]; cbn; [reflexivity|].
-  rewrite IH. destruct (raises_on f d); reflexivity.
-Qed.
+Section CallAll.
+  Context {D : Type} (act : D -> cb_act -> D).
 
-Lemma call_all_strict_quiet : forall d fs,
-  (forall f, In f fs -> raises_on f d = false) -> call_all false d fs = (calls_of d fs, None).
-Proof.
-  intros d; induction fs as [|f fs IH]; cbn; intros H; [reflexivity|].
-  rewrite (H f (or_introl eq_refl)), IH by (intros; apply H; now right). reflexivity.
-Qed.
+  (* who is invoked depends only on the list handed to call_all (the snapshot), never on what the
+     callables do to the state meanwhile *)
+  Lemma call_all_ignore : forall d fs st,
+    snd (fst (call_all act true d st fs)) = calls_of d fs /\ snd (call_all act true d st fs) = None.
+  Proof.
+    intros d; induction fs as [|f fs IH]; intros st; cbn [call_all]; [split; reflexivity|].
+    destruct (IH (fold_left act (acts f d) st)) as [H1 H2].
+    destruct (call_all act true d (fold_left act (acts f d) st) fs) as [[st2 l] x]. cbn [fst snd] in *. subst.
+    destruct (raises_on f d) eqn:E; cbn [fst snd calls_of map]; rewrite E; split; reflexivity.
+  Qed.
 
-Lemma call_all_strict_cut : forall d pre f post,
-  (forall g, In g pre -> raises_on g d = false) -> raises_on f d = true ->
-  call_all false d (pre ++ f :: post) = (calls_of d (pre ++ [f]), Some (ExCb (fn_id f))).
-Proof.
-  intros d; induction pre as [|g pre IH]; cbn; intros f post Hpre Hf.
-  - now rewrite Hf.
-  - rewrite (Hpre g (or_introl eq_refl)), (IH f post) by (auto; intros; apply Hpre; now right). reflexivity.
-Qed.
+  Lemma call_all_strict_quiet : forall d fs st,
+    (forall f, In f fs -> raises_on f d = false) ->
+    snd (fst (call_all act false d st fs)) = calls_of d fs /\ snd (call_all act false d st fs) = None.
+  Proof.
+    intros d; induction fs as [|f fs IH]; intros st H; cbn [call_all]; [split; reflexivity|].
+    rewrite (H f (or_introl eq_refl)).
+    destruct (IH (fold_left act (acts f d) st) (fun g Hg => H g (or_intror Hg))) as [H1 H2].
+    destruct (call_all act false d (fold_left act (acts f d) st) fs) as [[st2 l] x]. cbn [fst snd] in *. subst.
+    cbn. rewrite (H f (or_introl eq_refl)). split; reflexivity.
+  Qed.
 
-(* every callable registered for the document's kind is invoked once, in registration (cid) order;
-   a raising one is passed over when exceptions are ignored, otherwise delivery stops right after it
-   and its exception comes out of the emitting command *)
-Theorem delivery_policy : forall r d,
-  let fs := registered r (doc_sig d) in
-  (ign r = true -> process r d = (calls_of d fs, None)) /\
-  (ign r = false -> (forall f, In f fs -> raises_on f d = false) -> process r d = (calls_of d fs, None)) /\
-  (ign r = false -> forall pre f post, fs = pre ++ f :: post ->
-     (forall g, In g pre -> raises_on g d = false) -> raises_on f d = true ->
-     process r d = (calls_of d (pre ++ [f]), Some (ExCb (fn_id f)))).
-Proof.
-  intros r d fs; unfold process; fold fs. repeat split.
-  - intros ->. apply call_all_ignore.
-  - intros -> H. now apply call_all_strict_quiet.
-  - intros -> pre f post -> H1 H2. now apply call_all_strict_cut.
-Qed.
+  Lemma call_all_strict_cut : forall d pre f post st,
+    (forall g, In g pre -> raises_on g d = false) -> raises_on f d = true ->
+    snd (fst (call_all act false d st (pre ++ f :: post))) = calls_of d (pre ++ [f]) /\
+    snd (call_all act false d st (pre ++ f :: post)) = Some (ExCb (fn_id f)).
+  Proof.
+    intros d; induction pre as [|g pre IH]; intros f post st Hpre Hf; cbn [app call_all].
+    - rewrite Hf. cbn. rewrite Hf. split; reflexivity.
+    - rewrite (Hpre g (or_introl eq_refl)).
+      destruct (IH f post (fold_left act (acts g d) st) (fun h Hh => Hpre h (or_intror Hh)) Hf) as [H1 H2].
+      destruct (call_all act false d (fold_left act (acts g d) st) (pre ++ f :: post)) as [[st2 l] x].
+      cbn [fst snd] in *. subst. cbn. rewrite (Hpre g (or_introl eq_refl)). split; reflexivity.
+  Qed.
 
-(* the shape of one delivery with exceptions not ignored *)
-Definition strict_shape (res : list (nat * bool) * option exn) : Prop :=
-  (snd res = None /\ existsb snd (fst res) = false) \/
-  (exists id pre, snd res = Some (ExCb id) /\ fst res = pre ++ [(id, true)] /\ existsb snd pre = false).
+  (* the shape of one delivery with exceptions not ignored *)
+  Definition strict_shape (calls : list (nat * bool)) (x : option exn) : Prop :=
+    (x = None /\ existsb snd calls = false) \/
+    (exists id pre, x = Some (ExCb id) /\ calls = pre ++ [(id, true)] /\ existsb snd pre = false).
 
-Lemma call_all_strict_shape : forall d fs, strict_shape (call_all false d fs).
+  Lemma call_all_strict_shape : forall d fs st,
+    strict_shape (snd (fst (call_all act false d st fs))) (snd (call_all act false d st fs)).
+  Proof.
+    intros d; induction fs as [|f fs IH]; intros st; cbn [call_all].
+    - left; auto.
+    - destruct (raises_on f d) eqn:E.
+      + right. exists (fn_id f), []. auto.
+      + specialize (IH (fold_left act (acts f d) st)).
+        destruct (call_all act false d (fold_left act (acts f d) st) fs) as [[st2 l] x]. cbn [fst snd] in *.
+        destruct IH as [[H1 H2]|[id [pre [H1 [H2 H3]]]]].
+        * left; auto.
+        * right. exists id, ((fn_id f, false) :: pre). subst. auto.
+  Qed.
+End CallAll.
+
+(* every callable registered for the document's kind WHEN THE DOCUMENT IS EMITTED is invoked once, in
+   registration (cid) order - whatever the callbacks do to the subscriptions while it is delivered; a raising
+   one is passed over when exceptions are ignored, otherwise delivery stops right after it and its
+   exception comes out of the emitting command *)
+Theorem delivery_policy : forall d dc,
+  let fs := registered (reg d) (doc_sig dc) in
+  let calls := snd (fst (process d dc)) in let x := snd (process d dc) in
+  (ign (reg d) = true -> calls = calls_of dc fs /\ x = None) /\
+  (ign (reg d) = false -> (forall f, In f fs -> raises_on f dc = false) -> calls = calls_of dc fs /\ x = None) /\
+  (ign (reg d) = false -> forall pre f post, fs = pre ++ f :: post ->
+     (forall g, In g pre -> raises_on g dc = false) -> raises_on f dc = true ->
+     calls = calls_of dc (pre ++ [f]) /\ x = Some (ExCb (fn_id f))).
 Proof.
-  intros d; induction fs as [|f fs IH]; cbn.
-  - left; auto.
-  - destruct (raises_on f d) eqn:E.
-    + right. exists (fn_id f), []. auto.
-    + destruct (call_all false d fs) as [l x]. unfold strict_shape in *. cbn [fst snd] in *.
-      destruct IH as [[H1 H2]|[id [pre [H1 [H2 H3]]]]].
-      * left; auto.
-      * right. exists id, ((fn_id f, false) :: pre). subst. auto.
+  intros d dc fs calls x; unfold calls, x, process; fold fs. repeat split.
+  - rewrite H. apply call_all_ignore.
+  - rewrite H. apply call_all_ignore.
+  - rewrite H. now apply call_all_strict_quiet.
+  - rewrite H. now apply call_all_strict_quiet.
+  - rewrite H, H0. now apply call_all_strict_cut.
+  - rewrite H, H0. now apply call_all_strict_cut.
 Qed.
 
 Lemma existsb_rev {A} (p : A -> bool) (l : list A) : existsb p (rev l) = existsb p l.
@@ -83,35 +107,46 @@ Definition all_quiet (l : list emission) : Prop := forall em, In em l -> quiet_e
 Lemma all_quiet_app : forall l1 l2, all_quiet l1 -> all_quiet l2 -> all_quiet (l1 ++ l2).
 Proof. intros l1 l2 H1 H2 em H. apply in_app_or in H as [H|H]; auto. Qed.
 
-Lemma emit_all_strict : forall proc ds, (forall d, strict_shape (proc d)) ->
-  match emit_all proc ds with
-  | (es, None) => all_quiet es /\ map em_doc es = ds
-  | (es, Some e) => exists pre em id, es = pre ++ [em] /\ all_quiet pre /\ cut_em em = Some id /\
-                                      quiet_em em = false /\ e = ExCb id /\ In (em_doc em) ds
-  end.
-Proof.
-  intros proc ds Hp; induction ds as [|d ds IH]; cbn.
-  - split; [intros em []| reflexivity].
-  - pose proof (Hp d) as Hd. destruct (proc d) as [inv x]. unfold strict_shape in Hd. cbn [fst snd] in Hd.
-    destruct Hd as [[-> Hq]|[id [pre [-> [-> Hq]]]]].
-    + destruct (emit_all proc ds) as [es [e|]].
-      * destruct IH as [pre [em [id [-> [H1 [H2 [H3 [H4 H5]]]]]]]].
-        exists ({| em_doc := d; em_calls := inv |} :: pre), em, id. repeat split; auto.
-        intros em' [<-|H]; [unfold quiet_em; cbn; now rewrite Hq | now apply H1].
-      * destruct IH as [H1 H2]. split; [|cbn; now rewrite H2].
-        intros em' [<-|H]; [unfold quiet_em; cbn; now rewrite Hq | now apply H1].
-    + exists [], {| em_doc := d; em_calls := pre ++ [(id, true)] |}, id. repeat split; auto.
-      * intros em [].
-      * now apply cut_em_intro.
-      * apply not_quiet_intro.
-Qed.
+Section EmitAll.
+  Context {D : Type} (proc : D -> doc -> D * list (nat * bool) * option exn) (P : D -> Prop).
 
-Lemma emit_all_ignore : forall proc ds, (forall d, snd (proc d) = None) -> snd (emit_all proc ds) = None.
-Proof.
-  intros proc ds Hp; induction ds as [|d ds IH]; cbn; [reflexivity|].
-  pose proof (Hp d) as Hd. destruct (proc d) as [inv x]; cbn in Hd; subst x.
-  destruct (emit_all proc ds) as [es y]; exact IH.
-Qed.
+  Lemma emit_all_strict :
+    (forall st d, P st -> P (fst (fst (proc st d))) /\ strict_shape (snd (fst (proc st d))) (snd (proc st d))) ->
+    forall ds st, P st ->
+    P (fst (fst (emit_all proc st ds))) /\
+    match snd (emit_all proc st ds) with
+    | None => all_quiet (snd (fst (emit_all proc st ds))) /\ map em_doc (snd (fst (emit_all proc st ds))) = ds
+    | Some e => exists pre em id, snd (fst (emit_all proc st ds)) = pre ++ [em] /\ all_quiet pre /\
+                  cut_em em = Some id /\ quiet_em em = false /\ e = ExCb id /\ In (em_doc em) ds
+    end.
+  Proof.
+    intros Hp; induction ds as [|d ds IH]; intros st HP; cbn [emit_all].
+    - cbn. repeat split; auto. intros em [].
+    - destruct (Hp st d HP) as [HP1 Hd]. destruct (proc st d) as [[st1 inv] x]. cbn [fst snd] in *.
+      destruct Hd as [[-> Hq]|[id [pre [-> [-> Hq]]]]].
+      + specialize (IH st1 HP1). destruct (emit_all proc st1 ds) as [[st2 es] y]. cbn [fst snd] in *.
+        destruct IH as [HP2 IH]. split; [exact HP2|]. destruct y as [e|].
+        * destruct IH as [pre [em [id [-> [H1 [H2 [H3 [H4 H5]]]]]]]].
+          exists ({| em_doc := d; em_calls := inv |} :: pre), em, id.
+          split; [reflexivity|]. split; [|split; [exact H2|split; [exact H3|split; [exact H4|now right]]]].
+          intros em' [<-|H]; [unfold quiet_em; cbn; now rewrite Hq | now apply H1].
+        * destruct IH as [H1 H2]. split; [|cbn; now rewrite H2].
+          intros em' [<-|H]; [unfold quiet_em; cbn; now rewrite Hq | now apply H1].
+      + cbn [fst snd]. split; [exact HP1|].
+        exists [], {| em_doc := d; em_calls := pre ++ [(id, true)] |}, id.
+        split; [reflexivity|]. split; [intros em []|]. split; [now apply cut_em_intro|].
+        split; [apply not_quiet_intro|]. split; [reflexivity | now left].
+  Qed.
+
+  Lemma emit_all_ignore :
+    (forall st d, P st -> P (fst (fst (proc st d))) /\ snd (proc st d) = None) ->
+    forall ds st, P st -> P (fst (fst (emit_all proc st ds))) /\ snd (emit_all proc st ds) = None.
+  Proof.
+    intros Hp; induction ds as [|d ds IH]; intros st HP; cbn [emit_all]; [split; auto|].
+    destruct (Hp st d HP) as [HP1 Hd]. destruct (proc st d) as [[st1 inv] x]. cbn [fst snd] in *. subst x.
+    specialize (IH st1 HP1). destruct (emit_all proc st1 ds) as [[st2 es] y]. exact IH.
+  Qed.
+End EmitAll.
 
 (* ------------------------------------------------------------------ the policy flag is only changed by SetIgnore *)
 
@@ -147,6 +182,23 @@ Qed.
 Lemma fold_unsubscribe_ign : forall ts d, ign (reg (fold_left d_unsubscribe ts d)) = ign (reg d).
 Proof. induction ts as [|t ts IH]; cbn; intros; [reflexivity|]. now rewrite IH, d_unsubscribe_ign. Qed.
 
+Lemma apply_act_ign : forall d a, ign (reg (apply_act d a)) = ign (reg d).
+Proof. intros d a; destruct a; cbn [apply_act]; [apply d_unsubscribe_ign | apply d_subscribe_ign]. Qed.
+
+Lemma fold_act_ign : forall l d, ign (reg (fold_left apply_act l d)) = ign (reg d).
+Proof. induction l as [|a l IH]; cbn; intros; [reflexivity|]. now rewrite IH, apply_act_ign. Qed.
+
+Lemma call_all_ign : forall fs b dc d, ign (reg (fst (fst (call_all apply_act b dc d fs)))) = ign (reg d).
+Proof.
+  induction fs as [|f fs IH]; intros b dc d; cbn [call_all]; [reflexivity|].
+  pose proof (IH b dc (fold_left apply_act (acts f dc) d)) as H. rewrite fold_act_ign in H.
+  destruct (call_all apply_act b dc (fold_left apply_act (acts f dc) d) fs) as [[d2 l] x]. cbn [fst] in *.
+  destruct (raises_on f dc); [destruct b|]; cbn [fst]; try exact H. apply fold_act_ign.
+Qed.
+
+Lemma process_ign : forall d dc, ign (reg (fst (fst (process d dc)))) = ign (reg d).
+Proof. intros; unfold process; apply call_all_ign. Qed.
+
 Lemma subscribe_temps_ig : forall l s, ig (subscribe_temps s l) = ig s.
 Proof.
   induction l as [|[n f] l IH]; intros s; cbn; [reflexivity|].
@@ -159,11 +211,17 @@ Proof. intros; unfold ig, clear_call_cache; cbn. apply fold_unsubscribe_ign. Qed
 
 (* ------------------------------------------------------------------ one call *)
 
-Lemma process_strict_shape : forall r, ign r = false -> forall d, strict_shape (process r d).
-Proof. intros r H d. unfold process. rewrite H. apply call_all_strict_shape. Qed.
+Lemma process_strict : forall d dc, ign (reg d) = false ->
+  ign (reg (fst (fst (process d dc)))) = false /\ strict_shape (snd (fst (process d dc))) (snd (process d dc)).
+Proof.
+  intros d dc H. split; [now rewrite process_ign|]. unfold process. rewrite H. apply call_all_strict_shape.
+Qed.
 
-Lemma process_ignore_none : forall r, ign r = true -> forall d, snd (process r d) = None.
-Proof. intros r H d. unfold process. rewrite H, call_all_ignore. reflexivity. Qed.
+Lemma process_ignore : forall d dc, ign (reg d) = true ->
+  ign (reg (fst (fst (process d dc)))) = true /\ snd (process d dc) = None.
+Proof.
+  intros d dc H. split; [now rewrite process_ign|]. unfold process. rewrite H. apply call_all_ignore.
+Qed.
 
 (* what an aborted data message leaves for _run's finally to close *)
 Lemma action_cleanup : forall c m during ds after,
@@ -181,6 +239,8 @@ Proof.
     intros d [<-|[]] Hs. discriminate.
 Qed.
 
+Definition ign_is (b : bool) (d : disp) : Prop := ign (reg d) = b.
+
 Lemma run_plan_strict : forall plan s c ems toks s' c' ems' toks' x,
   run_plan s c plan ems toks = (s', c', ems', toks', x) -> ig s = false -> stop_made c = false ->
   exists new, ems' = ems ++ new /\ ig s' = false /\
@@ -197,9 +257,9 @@ Proof.
         | ASkip => run_plan s c plan ems toks
         | AIllegal => (s, c, ems, toks, Some ExIllegal)
         | AEmit during ds after =>
-            match emit_all (process (reg (dsp s))) ds with
-            | (es, None) => run_plan s after plan (ems ++ es) toks
-            | (es, Some e) => (s, during, ems ++ es, toks, Some e)
+            match emit_all process (dsp s) ds with
+            | (d, es, None) => run_plan {| dsp := d; temp := temp s |} after plan (ems ++ es) toks
+            | (d, es, Some e) => ({| dsp := d; temp := temp s |}, during, ems ++ es, toks, Some e)
             end
         end = (s', c', ems', toks', x) ->
         exists new, ems' = ems ++ new /\ ig s' = false /\
@@ -211,12 +271,12 @@ Proof.
           end).
     { intros Hr. destruct (plan_action c m) as [during ds after| |] eqn:Ea.
       - destruct (action_cleanup c m during ds after Hc Ea) as [Hafter Hclean].
-        pose proof (emit_all_strict (process (reg (dsp s))) ds (process_strict_shape _ Hig)) as He.
-        destruct (emit_all (process (reg (dsp s))) ds) as [es [e|]].
+        pose proof (emit_all_strict process (ign_is false) (fun st d H => process_strict st d H) ds (dsp s) Hig) as [Hig1 He].
+        destruct (emit_all process (dsp s) ds) as [[d1 es] [e|]]; cbn [fst snd] in *.
         + destruct He as [pre [em [id [-> [H1 [H2 [H3 [-> H5]]]]]]]]. inversion Hr; subst.
           exists (pre ++ [em]). repeat split; auto. exists pre, em. repeat split; auto.
         + destruct He as [H1 H2].
-          destruct (IH _ _ _ _ _ _ _ _ _ Hr Hig Hafter) as [new [-> [Hig' Hx]]].
+          destruct (IH _ _ _ _ _ _ _ _ _ Hr Hig1 Hafter) as [new [-> [Hig' Hx]]].
           exists (es ++ new). rewrite app_assoc. repeat split; auto.
           destruct x as [[id| |]|].
           * destruct Hx as [pre [em [-> [K1 [K2 [K3 K4]]]]]]. exists (es ++ pre), em. rewrite app_assoc.
@@ -249,14 +309,14 @@ Proof.
         | ASkip => run_plan s c plan ems toks
         | AIllegal => (s, c, ems, toks, Some ExIllegal)
         | AEmit during ds after =>
-            match emit_all (process (reg (dsp s))) ds with
-            | (es, None) => run_plan s after plan (ems ++ es) toks
-            | (es, Some e) => (s, during, ems ++ es, toks, Some e)
+            match emit_all process (dsp s) ds with
+            | (d, es, None) => run_plan {| dsp := d; temp := temp s |} after plan (ems ++ es) toks
+            | (d, es, Some e) => ({| dsp := d; temp := temp s |}, during, ems ++ es, toks, Some e)
             end
         end = (s', c', ems', toks', x) -> ig s' = true /\ (forall id, x <> Some (ExCb id))).
     { intros Hr. destruct (plan_action c m) as [during ds after| |].
-      - pose proof (emit_all_ignore (process (reg (dsp s))) ds (process_ignore_none _ Hig)) as He.
-        destruct (emit_all (process (reg (dsp s))) ds) as [es [e|]]; [discriminate He|].
+      - pose proof (emit_all_ignore process (ign_is true) (fun st d H => process_ignore st d H) ds (dsp s) Hig) as [Hig1 He].
+        destruct (emit_all process (dsp s) ds) as [[d1 es] [e|]]; cbn [fst snd] in *; [discriminate He|].
         eapply IH; eauto.
       - inversion Hr; subst. split; [exact Hig | discriminate].
       - eapply IH; eauto. }
@@ -299,15 +359,16 @@ Proof.
   destruct (run_plan (subscribe_temps (clear_call_cache s) l) cstate0 plan [] []) as [[[[s3 c] ems] toks] x] eqn:Erun.
   destruct (ig s) eqn:Hig.
   - destruct (run_plan_ignore _ _ _ _ _ _ _ _ _ _ Erun Hi2) as [H3 Hx].
-    destruct (emit_all (process (reg (dsp s3))) _) as [es y]. cbn [fst snd].
-    split; [exact H3 | split; [|discriminate]]. intros _. cbn.
+    pose proof (emit_all_ignore process (ign_is true) (fun st d H => process_ignore st d H)
+                  (cleanup_docs c match x with Some _ => true | None => false end) (dsp s3) H3) as [H4 _].
+    destruct (emit_all process (dsp s3) _) as [[d4 es] y]. cbn [fst snd] in *.
+    split; [exact H4 | split; [|discriminate]]. intros _. cbn.
     destruct x as [[id| |]|]; try reflexivity. exfalso; now apply (Hx id).
   - destruct (run_plan_strict _ _ _ _ _ _ _ _ _ _ Erun Hi2 eq_refl) as [new [Hems [H3 Hx]]]. cbn in Hems. subst ems.
-    pose proof (emit_all_strict (process (reg (dsp s3)))
-                  (cleanup_docs c match x with Some _ => true | None => false end)
-                  (process_strict_shape _ H3)) as He.
-    destruct (emit_all (process (reg (dsp s3))) _) as [es y]. cbn [fst snd].
-    split; [exact H3 | split; [discriminate|]]. intros _ Hsr. cbn [call_ok].
+    pose proof (emit_all_strict process (ign_is false) (fun st d H => process_strict st d H)
+                  (cleanup_docs c match x with Some _ => true | None => false end) (dsp s3) H3) as [H4 He].
+    destruct (emit_all process (dsp s3) _) as [[d4 es] y]. cbn [fst snd] in *.
+    split; [exact H4 | split; [discriminate|]]. intros _ Hsr. cbn [call_ok].
     rewrite stop_raised_app in Hsr. apply orb_false_iff in Hsr as [Hsr1 Hsr2].
     (* the closing emission(s) raise nothing: they are stop documents *)
     assert (Hes : all_quiet es /\ map em_doc es = cleanup_docs c match x with Some _ => true | None => false end).
@@ -322,7 +383,6 @@ Proof.
     destruct Hes as [Hq Hdocs].
     destruct x as [[id| |]|].
     + destruct Hx as [pre [em [-> [K1 [K2 [K3 K4]]]]]].
-      (* the cut emission is not a stop document (class C19-a is excluded) *)
       assert (Hns : is_stop (em_doc em) = false).
       { destruct (is_stop (em_doc em)) eqn:E; [|reflexivity]. exfalso.
         cbn in Hsr1. rewrite existsb_app in Hsr1. cbn in Hsr1. rewrite E in Hsr1. cbn in Hsr1.
@@ -443,21 +503,48 @@ Proof.
   intros r s. unfold registered. cbn [quiet_reg cbs]. rewrite filter_map_comm, !map_map. reflexivity.
 Qed.
 
-Lemma q_process : forall r d, ign r = true ->
-  process r d = (fst (process r d), None) /\
-  process (quiet_reg r) d = (map (fun c => (fst c, false)) (fst (process r d)), None).
+Lemma q_apply_act : forall d a, apply_act (quiet_disp d) (quiet_act a) = quiet_disp (apply_act d a).
 Proof.
-  intros r d H. unfold process. cbn [quiet_reg ign]. rewrite H, q_registered, !call_all_ignore. cbn [fst].
-  split; [reflexivity|]. unfold calls_of. rewrite !map_map. reflexivity.
+  intros d a; destruct a as [t|id eq rz n]; cbn [quiet_act apply_act].
+  - apply q_d_unsubscribe.
+  - change (plain_fn id eq (fun _ => false)) with (quiet_fn (plain_fn id eq rz)).
+    rewrite q_d_subscribe. reflexivity.
 Qed.
 
-Lemma q_emit_all : forall r ds, ign r = true ->
-  emit_all (process r) ds = (fst (emit_all (process r) ds), None) /\
-  emit_all (process (quiet_reg r)) ds = (map strip_em (fst (emit_all (process r) ds)), None).
+Lemma q_fold_act : forall l d,
+  fold_left apply_act (map quiet_act l) (quiet_disp d) = quiet_disp (fold_left apply_act l d).
+Proof. induction l as [|a l IH]; intros d; cbn; [reflexivity|]. now rewrite q_apply_act, IH. Qed.
+
+Definition strip_calls (l : list (nat * bool)) : list (nat * bool) := map (fun c => (fst c, false)) l.
+
+Lemma q_call_all : forall fs dc d,
+  call_all apply_act true dc (quiet_disp d) (map quiet_fn fs) =
+  (quiet_disp (fst (fst (call_all apply_act true dc d fs))),
+   strip_calls (snd (fst (call_all apply_act true dc d fs))), None).
 Proof.
-  intros r ds H; induction ds as [|d ds IH]; cbn [emit_all]; [split; reflexivity|].
-  destruct (q_process r d H) as [P1 P2]. rewrite P2. rewrite P1.
-  destruct IH as [I1 I2]. rewrite I2. rewrite I1. cbn. split; reflexivity.
+  induction fs as [|f fs IH]; intros dc d; cbn [map call_all]; [reflexivity|].
+  cbn [quiet_fn acts raises_on fn_id]. rewrite q_fold_act, IH.
+  destruct (call_all apply_act true dc (fold_left apply_act (acts f dc) d) fs) as [[d2 l] x].
+  destruct (raises_on f dc); reflexivity.
+Qed.
+
+Lemma q_process : forall d dc, ign (reg d) = true ->
+  process (quiet_disp d) dc =
+  (quiet_disp (fst (fst (process d dc))), strip_calls (snd (fst (process d dc))), None).
+Proof.
+  intros d dc H. unfold process. cbn [quiet_disp reg quiet_reg ign]. rewrite H, q_registered. apply q_call_all.
+Qed.
+
+Lemma q_emit_all : forall ds d, ign (reg d) = true ->
+  emit_all process (quiet_disp d) ds =
+  (quiet_disp (fst (fst (emit_all process d ds))), map strip_em (snd (fst (emit_all process d ds))), None) /\
+  snd (emit_all process d ds) = None.
+Proof.
+  induction ds as [|dc ds IH]; intros d H; cbn [emit_all]; [split; reflexivity|].
+  rewrite (q_process d dc H). destruct (process_ignore d dc H) as [H1 Hx].
+  destruct (process d dc) as [[d1 inv] x]. cbn [fst snd] in *. subst x.
+  destruct (IH d1 H1) as [I1 I2]. rewrite I1.
+  destruct (emit_all process d1 ds) as [[d2 es] y]. cbn [fst snd] in *. subst y. split; reflexivity.
 Qed.
 
 Lemma q_run_plan : forall plan s c ems toks, ig s = true ->
@@ -465,32 +552,36 @@ Lemma q_run_plan : forall plan s c ems toks, ig s = true ->
   let '(s', c', ems', toks', x) := run_plan s c plan ems toks in (quiet_re s', c', map strip_em ems', toks', x).
 Proof.
   induction plan as [|m plan IH]; intros s c ems toks Hig; [reflexivity|].
-  assert (Hdata : forall m', plan_action c m' = plan_action c m' ->
-    match plan_action c m' with
+  assert (Hdata : forall a,
+    match a with
     | ASkip => run_plan (quiet_re s) c (map quiet_pmsg plan) (map strip_em ems) toks
     | AIllegal => (quiet_re s, c, map strip_em ems, toks, Some ExIllegal)
     | AEmit during ds after =>
-        match emit_all (process (reg (dsp (quiet_re s)))) ds with
-        | (es, None) => run_plan (quiet_re s) after (map quiet_pmsg plan) (map strip_em ems ++ es) toks
-        | (es, Some e) => (quiet_re s, during, map strip_em ems ++ es, toks, Some e)
+        match emit_all process (dsp (quiet_re s)) ds with
+        | (d, es, None) => run_plan {| dsp := d; temp := temp (quiet_re s) |} after (map quiet_pmsg plan) (map strip_em ems ++ es) toks
+        | (d, es, Some e) => ({| dsp := d; temp := temp (quiet_re s) |}, during, map strip_em ems ++ es, toks, Some e)
         end
     end =
     let '(s', c', ems', toks', x) :=
-      match plan_action c m' with
+      match a with
       | ASkip => run_plan s c plan ems toks
       | AIllegal => (s, c, ems, toks, Some ExIllegal)
       | AEmit during ds after =>
-          match emit_all (process (reg (dsp s))) ds with
-          | (es, None) => run_plan s after plan (ems ++ es) toks
-          | (es, Some e) => (s, during, ems ++ es, toks, Some e)
+          match emit_all process (dsp s) ds with
+          | (d, es, None) => run_plan {| dsp := d; temp := temp s |} after plan (ems ++ es) toks
+          | (d, es, Some e) => ({| dsp := d; temp := temp s |}, during, ems ++ es, toks, Some e)
           end
       end in (quiet_re s', c', map strip_em ems', toks', x)).
-  { intros m' _. destruct (plan_action c m') as [during ds after| |].
-    - destruct (q_emit_all (reg (dsp s)) ds Hig) as [E1 E2]. cbn [quiet_re dsp quiet_disp reg].
-      rewrite E2, E1. rewrite <- map_app. now apply IH.
+  { intros [during ds after| |].
+    - destruct (q_emit_all ds (dsp s) Hig) as [E1 E2]. cbn [quiet_re dsp temp]. rewrite E1.
+      pose proof (emit_all_ignore process (ign_is true) (fun st d H => process_ignore st d H) ds (dsp s) Hig) as [Hig1 _].
+      destruct (emit_all process (dsp s) ds) as [[d1 es] y]. cbn [fst snd] in *. subst y.
+      rewrite <- map_app.
+      change {| dsp := quiet_disp d1; temp := temp s |} with (quiet_re {| dsp := d1; temp := temp s |}).
+      now apply IH.
     - reflexivity.
     - now apply IH. }
-  destruct m; cbn [map quiet_pmsg run_plan]; try (apply Hdata; reflexivity).
+  destruct m; cbn [map quiet_pmsg run_plan]; try apply Hdata.
   - (* PSub *)
     cbn [quiet_re dsp temp]. rewrite q_d_subscribe.
     pose proof (d_subscribe_ign (dsp s) f n) as Hi.
@@ -548,8 +639,9 @@ Proof.
   pose proof (q_run_plan plan _ cstate0 [] [] Hi2) as Q. cbn [map] in Q. rewrite Q.
   destruct (run_plan (subscribe_temps (clear_call_cache s) l) cstate0 plan [] []) as [[[[s3 c] ems] toks] x] eqn:Erun.
   destruct (run_plan_ignore _ _ _ _ _ _ _ _ _ _ Erun Hi2) as [H3 _].
-  destruct (q_emit_all (reg (dsp s3)) (cleanup_docs c match x with Some _ => true | None => false end) H3) as [E1 E2].
-  cbn [quiet_re dsp quiet_disp reg]. rewrite E2, E1. cbn [fst snd strip_obs]. now rewrite map_app.
+  destruct (q_emit_all (cleanup_docs c match x with Some _ => true | None => false end) (dsp s3) H3) as [E1 E2].
+  cbn [quiet_re dsp temp]. rewrite E1.
+  destruct (emit_all process (dsp s3) _) as [[d4 es] y]. cbn [fst snd strip_obs] in *. now rewrite map_app.
 Qed.
 
 Lemma q_step : forall s o, ig s = true ->
@@ -619,24 +711,46 @@ Qed.
 Lemma ordered_subscribe : forall s f n tmp, ordered s -> ordered (fst (sp_subscribe s f n tmp)).
 Proof.
   intros s f n tmp [H1 H2]. destruct (subname_dec_bad n) as [->|Hn]; [split; assumption|].
-  assert (E : fst (sp_subscribe s f n tmp) =
-              {| live := live s ++ [{| s_tok := next_tok s; s_fn := f; s_name := n; s_temp := tmp |}];
-                 next_tok := S (next_tok s); sp_ign := sp_ign s |}) by (destruct n; try congruence; reflexivity).
-  rewrite E. split; cbn.
+  rewrite (sp_subscribe_eq s f n tmp Hn). cbn [fst]. split; cbn.
   - rewrite map_app. cbn. apply sorted_snoc; [exact H1|]. intros x Hx. apply in_map_iff in Hx as [y [<- Hy]]. now apply H2.
   - intros x Hx. apply in_app_or in Hx as [Hx|[<-|[]]]; [apply H2 in Hx; lia | cbn; lia].
 Qed.
 
-Lemma ordered_filter : forall s p, ordered s ->
-  ordered {| live := filter p (live s); next_tok := next_tok s; sp_ign := sp_ign s |}.
+Lemma ordered_filter : forall s p tl, ordered s ->
+  ordered {| live := filter p (live s); next_tok := next_tok s; sp_ign := sp_ign s; sp_temps := tl |}.
 Proof.
-  intros s p [H1 H2]. split; cbn.
+  intros s p tl [H1 H2]. split; cbn.
   - now apply sorted_filter.
   - intros x Hx. apply filter_In in Hx as [Hx _]. now apply H2.
 Qed.
 
 Lemma ordered_subscribe_temps : forall l s, ordered s -> ordered (sp_subscribe_temps s l).
 Proof. induction l as [|[n f] l IH]; intros s H; cbn; [exact H|]. apply IH. now apply ordered_subscribe. Qed.
+
+Lemma ordered_act : forall s a, ordered s -> ordered (sp_apply_act s a).
+Proof.
+  intros s a H; destruct a; cbn [sp_apply_act]; [now apply (ordered_filter s) | now apply ordered_subscribe].
+Qed.
+
+Lemma ordered_fold_act : forall l s, ordered s -> ordered (fold_left sp_apply_act l s).
+Proof. induction l as [|a l IH]; cbn; intros s H; [exact H|]. apply IH. now apply ordered_act. Qed.
+
+Lemma ordered_call_all : forall fs b dc s, ordered s -> ordered (fst (fst (call_all sp_apply_act b dc s fs))).
+Proof.
+  induction fs as [|f fs IH]; intros b dc s H; cbn [call_all]; [exact H|].
+  pose proof (ordered_fold_act (acts f dc) s H) as H1. pose proof (IH b dc _ H1) as H2.
+  destruct (call_all sp_apply_act b dc (fold_left sp_apply_act (acts f dc) s) fs) as [[s2 l] x]. cbn [fst] in *.
+  destruct (raises_on f dc); [destruct b|]; cbn [fst]; assumption.
+Qed.
+
+Lemma ordered_emit_all : forall ds s, ordered s -> ordered (fst (fst (emit_all sp_process s ds))).
+Proof.
+  induction ds as [|dc ds IH]; intros s H; cbn [emit_all]; [exact H|].
+  pose proof (ordered_call_all (map s_fn (filter (fun x => covers (s_name x) (doc_sig dc)) (live s))) (sp_ign s) dc s H) as H1.
+  fold (sp_process s dc) in H1. destruct (sp_process s dc) as [[s1 inv] x]. cbn [fst] in H1.
+  destruct x as [e|]; [exact H1|].
+  pose proof (IH s1 H1) as H2. destruct (emit_all sp_process s1 ds) as [[s2 es] y]. exact H2.
+Qed.
 
 Lemma ordered_run_plan : forall plan s c ems toks, ordered s ->
   ordered (fst (fst (fst (fst (sp_run_plan s c plan ems toks))))).
@@ -646,18 +760,18 @@ Proof.
         | ASkip => sp_run_plan s c plan ems toks
         | AIllegal => (s, c, ems, toks, Some ExIllegal)
         | AEmit during ds after =>
-            match emit_all (sp_process s) ds with
-            | (es, None) => sp_run_plan s after plan (ems ++ es) toks
-            | (es, Some e) => (s, during, ems ++ es, toks, Some e)
+            match emit_all sp_process s ds with
+            | (s1, es, None) => sp_run_plan s1 after plan (ems ++ es) toks
+            | (s1, es, Some e) => (s1, during, ems ++ es, toks, Some e)
             end
         end)))))).
-  { intros [during ds after| |]; [destruct (emit_all (sp_process s) ds) as [es [e|]]; [exact H | now apply IH]
-                                 | exact H | now apply IH]. }
+  { intros [during ds after| |]; [|exact H|now apply IH].
+    pose proof (ordered_emit_all ds s H) as H1.
+    destruct (emit_all sp_process s ds) as [[s1 es] [e|]]; cbn [fst] in H1; [exact H1 | now apply IH]. }
   destruct m; cbn [sp_run_plan]; try apply Hdata.
   - pose proof (ordered_subscribe s f n true H) as H1.
     destruct (sp_subscribe s f n true) as [s1 [t|]]; cbn [fst] in *; [now apply IH | exact H1].
-  - pose proof (ordered_filter s (fun x => negb (s_tok x =? t)) H) as H1.
-    destruct (existsb _ (live s)); [now apply IH | exact H1].
+  - destruct (existsb _ (sp_temps s)); [apply IH|]; now apply (ordered_filter s).
 Qed.
 
 Lemma ordered_step : forall s o, ordered s -> ordered (fst (sp_step s o)).
@@ -669,7 +783,8 @@ Proof.
   - unfold sp_run_call. destruct (normalize_subs subs) as [l|]; [|exact H].
     pose proof (ordered_run_plan plan _ cstate0 [] [] (ordered_subscribe_temps l s H)) as H1.
     destruct (sp_run_plan (sp_subscribe_temps s l) cstate0 plan [] []) as [[[[s3 c] ems] toks] x]. cbn [fst] in H1.
-    destruct (emit_all (sp_process s3) _) as [es y]. cbn [fst]. now apply (ordered_filter s3).
+    pose proof (ordered_emit_all (cleanup_docs c match x with Some _ => true | None => false end) s3 H1) as H2.
+    destruct (emit_all sp_process s3 _) as [[s4 es] y]. cbn [fst] in *. now apply (ordered_filter s4).
   - split; cbn; [constructor | intros x []].
   - split; cbn; [constructor | intros x []].
 Qed.
